@@ -4,6 +4,19 @@ from . import common as C
 
 
 def replay(ctx, kf):
+    w = kf['witness']
+    if w.startswith('recipe:'):
+        from . import recipes
+        fn = recipes.RECIPES.get(w.split(':', 1)[1])
+        if fn is None:
+            return None
+        with C.BuildLock():
+            C.cli_build()
+        try:
+            return bool(fn())
+        except Exception as e:
+            ctx.notes.append(f'witness {w} could not be run: {e!r}'[:300])
+            return None
     path = os.path.join(C.VERIF, kf['witness'])
     if not os.path.exists(path):
         return None
